@@ -42,6 +42,8 @@ type Spec struct {
 	OSWriter bool
 	// RealObj: the object tool is pprof's own binutils wrapper (addr2line, nm, objdump from /usr/bin)
 	RealObj bool
+	// Tools overrides the tool directories used with RealObj ("objdump:/dir,nm:/usr/bin,...")
+	Tools string
 }
 
 // Segment is what one interactive line / one request produced.
@@ -147,11 +149,15 @@ func listFiles(dir string, seen map[string]string) map[string]string {
 		if len(b) > 1<<16 {
 			b = b[:1<<16]
 		}
-		stamp := fmt.Sprint(info.ModTime().UnixNano(), ":", info.Size(), ":") + string(b)
-		if old, ok := seen[path]; ok && old == stamp {
+		// every listed file is given a fixed modification time far in the past: a later write of
+		// the same bytes (even within the file system's timestamp granularity) moves it away from it
+		listed := time.Unix(1000000000, 0)
+		stamp := fmt.Sprint(info.Size(), ":") + string(b)
+		if old, ok := seen[path]; ok && old == stamp && info.ModTime().Equal(listed) {
 			return nil // neither new nor written since it was last listed
 		}
 		seen[path] = stamp
+		os.Chtimes(path, listed, listed)
 		rel, _ := filepath.Rel(dir, path)
 		out[rel] = FileText(b)
 		return nil
@@ -162,12 +168,19 @@ func listFiles(dir string, seen map[string]string) map[string]string {
 // the child's PATH is empty: tools are named by directory
 const realTools = "addr2line:/usr/bin,nm:/usr/bin,objdump:/usr/bin,llvm-symbolizer:/nonexistent"
 
+func toolsOf(spec Spec) string {
+	if spec.Tools != "" {
+		return spec.Tools
+	}
+	return realTools
+}
+
 func realObj(spec Spec) plugin.ObjTool {
 	if !spec.RealObj {
 		return nil
 	}
 	bu := &binutils.Binutils{}
-	bu.SetTools(realTools)
+	bu.SetTools(toolsOf(spec))
 	return bu
 }
 
@@ -209,7 +222,7 @@ func Child(args []string) int {
 		strs[k] = v
 	}
 	if spec.RealObj {
-		strs["tools"] = realTools // the driver configures the object tool from this flag
+		strs["tools"] = toolsOf(spec) // the driver configures the object tool from this flag
 	}
 	segDir := filepath.Join(spec.Dir, "seg")
 	os.MkdirAll(segDir, 0o755)
